@@ -490,3 +490,27 @@ def name_result_record(ex, func, tup):
                 tup.record = r
                 break
     return tup
+
+
+def bind_call(ex, func, args, kwargs):
+    """parameter name -> value at a summarised call: positional and keyword arguments, and for a parameter the call leaves
+    out the value of its default (a driver that falls back to a default is not running with what the detector was
+    configured with)"""
+    from ..symex import Frame
+
+    names = func.params
+    b = {}
+    for i, a in enumerate(args):
+        if i < len(names):
+            b[names[i]] = a
+    b.update(kwargs)
+    fa = func.node.args
+    pos = fa.posonlyargs + fa.args
+    pairs = list(zip([x.arg for x in pos[len(pos) - len(fa.defaults):]], fa.defaults)) + [(k.arg, d) for k, d in zip(fa.kwonlyargs, fa.kw_defaults) if d is not None]
+    for name, d in pairs:
+        if name not in b:
+            try:
+                b[name] = ex.eval_default(d, Frame(func, func.module))
+            except Undecided:
+                pass
+    return b
